@@ -10,6 +10,7 @@
 //!  * `timestamps` - Timestamp / TimestampOnClose x every epoch format x injected wall clocks.
 //! The reference models are written from the property statement (sum of kept spans since the last
 //! clear/overwrite; creation -> first stop; wall clock at creation / at close in the chosen unit).
+mod resolution;
 mod stopwatch;
 mod timer;
 mod timestamps;
@@ -100,6 +101,8 @@ fn main() {
     let sw = stopwatch::run(&mut rep);
     let tm = timer::run(&mut rep);
     let ts = timestamps::run(&mut rep);
+    let res = resolution::run(&mut rep);
+    rep.set("time_source_resolution_cases", res);
 
     rep.set("states", sw.histories + tm.histories + ts.scenarios);
     rep.set("transitions", sw.ops_applied + tm.ops_applied + ts.real_calls);
